@@ -14,7 +14,7 @@ PROPS = {
         "not_covered": ["element-level traits' from_derive_input etc. are covered under C08/C16", "L2 with_inherited/as_codegen_field are exercised only through the emitted code, not separately contracted"],
     },
     "C02": {
-        "units": ["l1_error_api", "c05_accumulator"],
+        "units": ["l1_error_api", "c05_accumulator", "c16_body_conversion", "c14_maps"],
         "gen": [{"corpus": "structs", "mode": "err", "unit_span": True}, {"corpus": "enums", "mode": "full", "unit_span": True}, {"corpus": "elems", "mode": "full", "unit_span": True}],
         "classes": r"postcondition|invariant|post-condition of closure",
         "level_text": "Same emitted functions proved equal to the full oracle: Err(e_multiple(mistakes)) with one error per unknown name, repeat, literal item, "
@@ -49,15 +49,17 @@ PROPS = {
         "not_covered": ["FromVariant / FromTypeParam receivers", "`attrs` with a custom `with` converter", "partition-invariance as a separately stated lemma (it is implicit in the oracle)"],
     },
     "C16": {
-        "units": [],
+        "units": ["c16_body_conversion", "c16_generics"],
         "gen": [{"corpus": "elems", "mode": "full"}],
         "classes": r"postcondition|invariant|post-condition of closure",
         "level_text": "Same emitted functions: the magic fields of the result are proved equal to the corresponding parts of the input element (ident, vis, ty, generics via FromGenerics, attrs = forwarded list, "
                       "data = Data::try_from(body)) and a failing body conversion is returned as the error, after the attribute layer was clean.",
-        "level_note": "Proof per program; programs sampled. Data::try_from / Fields::try_from / Generics conversion are seen through uninterpreted contracts here; their own units are pending (not_covered).",
+        "level_note": "L3: proof per program; programs sampled. L1 (units c16_body_conversion, c16_generics): Fields::try_from / Data::try_from return Ok with the input's kind and style, exactly one converted entry per field/variant in source order, "
+                      "or Err(multiple(all failing elements' errors in order, named fields located at their identifier)); union -> Err; as_ref/map*/with_span/empty_from preserve kind, style, span, count, order; Generics::from_generics keeps count, order and where-clause; "
+                      "TypeParams::next yields exactly the type parameters in order and terminates; syn pass-through impls return the named part unchanged. syn seen through full-field mirrors with opaque leaves; converters through client-view traits.",
         "design_ref": "DESIGN.md section 6 C16",
         "assumptions": "L3",
-        "not_covered": ["ast::Data::try_from / Fields::try_from / Generics::from_generics bodies (L1 unit pending)", "FromVariant (discriminant, fields) and FromTypeParam (bounds, default) magic fields", "Fields::to_tokens round trip (not expressible)"],
+        "not_covered": ["FromVariant (discriminant, fields) and FromTypeParam (bounds, default) magic fields at L3", "Fields::to_tokens print round trip (quote!/TokenStream: not expressible)", "From<(Style,U)> for Fields / Style::with_fields", "impl From{Field,Variant,TypeParam} for () (`_` parameter pattern rejected by Verus)"],
     },
     "C09": {
         "units": [],
@@ -87,13 +89,15 @@ PROPS = {
     },
     "C18": {
         "units": ["c18_shape"],
+        "gen": [{"corpus": "supports", "mode": "full"}],
         "level_text": "Every function of core/src/util/shape.rs (ShapeSet::{new, from_iter, insert, insert_all, is_empty, contains_shape, contains, check, to_vec}, "
                       "Display for ShapeSet/Shape, Shape::description, the seven AsShape impls) and Error::unsupported_shape_with_expected are proved on their real bodies "
                       "against an oracle written from the statement: accepts(set, s) = some declared word admits s, where a word admits its own shape and `tuple` also admits Newtype. "
                       "contains/contains_shape return exactly accepts; insert changes exactly the flag of its word; check is Ok iff accepts and otherwise equals the "
                       "unsupported-shape error; to_vec is a duplicate-free list of <= 3 declared words with the same acceptance; the unreachable!() in Display is proved unreachable. "
-                      "A proved client probe shows the generated per-variant loop yields one error per non-conforming variant.",
-        "level_note": "Proof for all sets/shapes/containers. Trusted: reduced syn mirrors (Punctuated::len is a pure count), IntoIterator yield sequence, derive(Default) = all false, "
+                      "L3: the __validate_body emitted by the working tree's derive for a receiver declaring supports(..) is proved, for all bodies, equal to the verdict table "
+                      "(struct vs enum-only words, per-variant errors in order, union => error; quick: 6 declarations, thorough: all 255 struct x enum word subsets).",
+        "level_note": "Proof for all sets/shapes/containers; L3 proof per declaration (exhaustive over word subsets in the thorough tier). Trusted: reduced syn mirrors (Punctuated::len is a pure count), IntoIterator yield sequence, derive(Default) = all false, "
                       "Display text (R11), Error/Accumulator contracts proved in l1_error_api / c05_accumulator.",
         "design_ref": "DESIGN.md section 6 C18",
         "assumptions": [
@@ -105,7 +109,7 @@ PROPS = {
             "description texts are checked against the literals of Shape's rustdoc; the property only uses their pairwise distinctness (lemma_desc_injective)",
         ],
         "not_covered": [
-            "generated __validate_body / from_variant supports check for declared word subsets (L3 unit pending; struct-vs-enum-only words, union F3, word parsing F9)",
+            "from_variant's supports check (FromVariant receivers are not in the L3 corpus yet); word parsing is under C10 (set_word)",
             "the message text rendered by Display for ShapeSet (only panic-freedom is proved)",
         ],
     },
@@ -264,11 +268,32 @@ PROPS = {
         "not_covered": ["Vec<syn::Lit*> (from_list/from_value/from_expr) and from_numeric_array! x5: iterator .map().collect::<Result<Vec<_>>>() chains not rewritten (observation: Vec<u8>::from_expr looks through only one group level per element)",
                         "bare and quoted spellings give EQUAL values (needs parse(print(x)) == x for syn)", "PathList::new/to_strings, Callable From impls, IdentString::map and its Eq/Hash/Display impls"],
     },
+    "C14": {
+        "units": ["c14_maps", "c14_key_ident"],
+        "classes": r"postcondition|invariant|post-condition of closure|assertion failed|precondition not satisfied",
+        "level_text": "All five map! instances (HashMap<String|Ident|Path,V,S>, BTreeMap<String|Ident,V>) are proved on the macro's real body, for every V: FromMeta and every item list, against ONE oracle over the item sequence "
+                      "(keys_seen/entries/errs after k items): exists vals (V's verdict per named item, via call_ensures) with view(r) == Ok(entries(n)) iff errs(n)==[] else Err(e_multiple(errs(n))), and Ok => exactly n entries; "
+                      "errs has one leaf per literal item (at the literal), per repeated occurrence (at that occurrence's path), per unconvertible key (+ its value's error) and per unconvertible value located at(path text); first occurrence wins, "
+                      "keys with failed values still count as seen. lemma_success_iff: Ok <=> all named, keys convert and are pairwise distinct, values convert. With the deterministic probe PAll, hash and ordered maps are proved to return equal views/errors on every list. "
+                      "KeyFromPath for String/Path/Ident and Error::at_path on their real bodies (Ident: exactly one segment, no leading ::, no arguments; else custom error at the path).",
+        "level_note": "Hash instances hold under builds_valid_hashers::<S>() (hypothesis). The literal-item leaf is located at the literal since fix commit 1784754 (F11). "
+                      "In c14_maps the Ident key conversion is an arbitrary function of the (opaque) path; the real one is proved in c14_key_ident against a structural Path mirror.",
+        "design_ref": "DESIGN.md section 6 C14",
+        "assumptions": [
+            "String / mirrored Ident / mirrored Path are lawful keys: obeys_key_model, key_obeys_cmp_spec (axiom fns in prelude/c14_std.vrs, c14_keys.vrs); vstd contracts of HashSet/HashMap/BTreeMap/Cow",
+            "HashMap::with_capacity_and_hasher returns an empty map (assume_specification); &Cow<str> as &str keeps the text (cow_as_str, R11)",
+            "util::path_to_string is a function of the path (path_str uninterpreted); Clone of Path/Ident yields an equal value; syn mirror as for C15",
+            "R8: rule 3 of map! is instantiated by tools/extract; the constructor expression of rules 1/2 is transcribed in the template head (not sliced)",
+            "R2: nested.iter().map(closure) + for -> as_pair_fn(closure) + index while calling it per item in order; R3/R10 closure headers and let-bound from_meta call; R14 syn::Ident -> Ident",
+            "Accumulator / Error / FromMeta defaults seen through contracts proved in c05_accumulator, l1_error_api, c15_routing",
+        ],
+        "not_covered": ["util::path_to_string body", "value types beyond generic V + probe PAll (nested maps follow from genericity)", "HashMap/BTreeMap from_meta routing into from_list (C15 default)", "constructor expressions in map! rules 1/2"],
+    },
     "C07": {
         "ignore_tags": True,
         "classes_text": r"assertion failed :: .*(__live|__armed)",
-        "units": ["c11_ints", "c11_nonzero", "c11_misc", "c13_syn_values", "c12_wrappers", "c15_routing", "c18_shape"],
-        "gen": [{"corpus": "structs", "mode": "full"}, {"corpus": "enums", "mode": "full"}, {"corpus": "elems", "mode": "full"}],
+        "units": ["c11_ints", "c11_nonzero", "c11_misc", "c13_syn_values", "c12_wrappers", "c15_routing", "c18_shape", "c16_body_conversion", "c16_generics", "c14_maps", "c14_key_ident"],
+        "gen": [{"corpus": "structs", "mode": "full"}, {"corpus": "enums", "mode": "full"}, {"corpus": "elems", "mode": "full"}, {"corpus": "supports", "mode": "full"}],
         "classes": r"precondition not satisfied|overflow|underflow|division by zero|index out of|unreachable|panic",
         "level_text": "Every expect()/unwrap/index/arithmetic site and every accumulator-armed precondition in the emitted parsers is a proved Verus precondition for all inputs "
                       "(e.g. Option::expect requires Some; finish requires armed).",
